@@ -2,7 +2,16 @@
 
 Shared machinery for C01 and C04 (checks/c04.py imports it): the timeout-guarded wrapper around the
 implementation-side harness harness/c/c01_pipeline.c, the Lean-side tables printed by `drv_c01`, the model /
-scenario generators, the footprint validation (V1/V2) and the poison differentials."""
+scenario generators, the footprint validation (V1/V2) and the poison differentials.
+
+Two layers.  Pipeline layer: mj_step / mj_forward / mj_inverse are translated and analysed over a table of stage
+footprints.  Second layer: the constraint stage (mj_fwdConstraint with the static warmstart, mj_invConstraint) — where the
+solver / warm-start / island / noslip options select which arena arrays are an initial iterate and which are recomputed —
+is translated too and analysed against the footprints of its leaf calls (the solvers, mj_constraintUpdate, mj_mulJacVec,
+...); the result must refine the stage's table entry (MjProof.C01.fwdConstraint_refines_footprint), so a branch that stops
+determining an array a solver reads breaks a proof for every option combination at once.  The leaf footprints are validated
+on the real engine like the stage footprints.  The models come from an option PLAN that covers the cells
+solver x warm start x islands x noslip (instead of sampling them independently) and half of them are constraint-rich."""
 import json
 import os
 import select
@@ -19,8 +28,10 @@ META = {
     "technique": "Lean 4 proof: sound abstract dataflow analysis (read-before-determined / may-write / must-determine) of the "
                  "clang-translated call skeletons of mj_step / mj_forward / mj_inverse over a stage footprint table, "
                  "non-interference theorem for every interpretation of the stages respecting the table (data-dependent guards, "
-                 "while-loops with fuel, ret/err scoping included); the table is validated against the real engine by per-stage "
-                 "write / poison tests; property oracle = bitwise poison differentials on the real engine",
+                 "while-loops with fuel, ret/err scoping included); second layer: the translated bodies of mj_fwdConstraint (+ static "
+                 "warmstart) and mj_invConstraint analysed per solver over leaf footprints and proved to refine their table entries; "
+                 "stage and leaf footprints are validated against the real engine by write / poison tests; property oracle = bitwise "
+                 "poison differentials on the real engine over an option plan covering solver x warm start x islands x noslip",
     "text": "Proved once, for every interpretation / model-constant environment / fuel: Prog.abs_sound (two data agreeing on I ⊇ the "
             "analysed read-before-determined set run in lock step and agree afterwards on I and on the determined groups) and "
             "Prog.frame_sound.  Kernel-evaluated on the programs regenerated from engine_forward.c / engine_inverse.c on every "
@@ -29,12 +40,20 @@ META = {
             "empty stack, function locals, the all-awake sleep bookkeeping; + qacc and — surfaced, _partial — the actuator forces for "
             "mj_inverse); every member of struct mjData_ is classified.  Hence forward / step / inverse on two mjData with equal "
             "integration state agree on the state and on every determined output group, whatever the receiver held "
-            "(forward_after_copyState, step_after_copyState).  With mjENBL_SLEEP the analysis shows (forward_sleep_inputs_partial) "
+            "(forward_after_copyState, step_after_copyState).  Second layer, kernel-evaluated on the bodies regenerated from the tree: "
+            "for PGS, CG and Newton, with and without constraint rows, and for every value of the warm-start / island / noslip / "
+            "sparsity flags, mj_fwdConstraint reads only pos / vel / smooth / qacc_warmstart before determining it and determines "
+            "qfrc_constraint, efc_force, efc_b, solver_niter, qacc (fwdConstraint_refines_footprint, fwdConstraint_deterministic; whole-array "
+            "writes mju_zero / mju_copy / mju_gather of the declared size count as determining a single-member group, "
+            "singleton_groups_have_one_member); likewise mj_invConstraint.  With mjENBL_SLEEP the analysis shows (forward_sleep_inputs_partial) "
             "and the oracle confirms that the derived arrays of sleeping trees are latent state: only mj_copyData copies are claimed.",
-    "note": "footprints are per stage function and per field group, hand-written (lean/MjProof/Model/Footprint.lean) and validated only "
+    "note": "footprints are per stage function (per leaf call inside the constraint stage) and per field group, hand-written (lean/MjProof/Model/Footprint.lean) and validated only "
             "dynamically (V1: changed fields ⊆ may-write groups; V2: every non-read group and the free arena filled with junk ⇒ read ∪ "
             "determined groups bitwise equal) on generated models without flex / plugins / user callbacks; statics reachable only inside "
-            "larger calls (mj_advance, mj_discreteAcc, stack bookkeeping) are validated through the whole-function differentials only. "
+            "larger calls (mj_advance, mj_discreteAcc, stack bookkeeping) are validated through the whole-function differentials only; "
+            "the leaves of the constraint stage are validated from post-mj_forward states (and the cold-start point efc_force = 0), the island "
+            "dispatch through mju_dispatch with a callback making the same three-way solver choice as the engine's static one; the bodies of "
+            "the other stage functions (position, velocity, actuation, sensors, integrators) are not translated. "
             "Lazily evaluated caches (energy, subtree velocities, rne-post) are compared as flag + (cache if the flag is set); members "
             "that are meaningful only under a condition (sparse Jacobian index arrays, act_dot with actuation disabled, nidof without "
             "islands, unused tails of efc_J / wrap arrays) are compared under that condition; diagnostics (timers, warnings, solver "
@@ -52,6 +71,15 @@ THEOREMS = [
     "MjProof.C01.translator_refused_nothing",
     "MjProof.C01.all_stages_have_footprints",
     "MjProof.C01.no_calls_left",
+    "MjProof.C01.singleton_groups_have_one_member",
+    "MjProof.C01.all_leaves_have_footprints",
+    "MjProof.C01.no_sub_calls_left",
+    "MjProof.C01.sub_programs_are_bodies",
+    "MjProof.C01.fwdConstraint_refines_footprint",
+    "MjProof.C01.invConstraint_refines_footprint",
+    "MjProof.C01.fwdConstraint_unknown_solver_reads_island_copies",
+    "MjProof.C01.sub_noninterference",
+    "MjProof.C01.fwdConstraint_deterministic",
     "MjProof.C01.forward_inputs_subset_state",
     "MjProof.C01.step_inputs_subset_state",
     "MjProof.C01.inverse_inputs_subset_state_partial",
@@ -172,6 +200,19 @@ class LeanInfo:
             self.cache[key] = json.loads(self._ask([line.strip()])[0])
         return self.cache[key]
 
+    def leaves(self, solver):
+        """footprints of the leaf calls of the second layer (constraint stage) for a solver name or None"""
+        key = ("leaves", solver)
+        if key not in self.cache:
+            self.cache[key] = json.loads(self._ask(["leaves %s" % (solver or "-")])[0])
+        return self.cache[key]
+
+    def subanalyze(self, fn, solver, nefc):
+        key = ("sub", fn, solver, nefc)
+        if key not in self.cache:
+            self.cache[key] = json.loads(self._ask(["subanalyze %s %s %s" % (fn, solver or "-", "-" if nefc is None else int(nefc))])[0])
+        return self.cache[key]
+
     def fields_of(self, groups, present):
         """harness field names (with slices) of the given groups, restricted to the fields the harness lists"""
         gs = set(groups)
@@ -208,15 +249,87 @@ def enum_or_none(name):
         return None
 
 
-def make_model(rng, sleep=0.0, integrator=None, extra_flags=True, history=0.3, profile=None):
+SOLVERS = ("PGS", "CG", "Newton")
+# profile of a constraint-rich scene: a floor, several free bodies dropped into each other and into the floor (see
+# rich_state), joint limits, friction loss, equalities, tendons — many coupled active constraint rows of every kind
+RICH_PROFILE = {"plane": 1.0, "free": 0.7, "nbody": (2, 5), "limits": 0.6, "frictionloss": 0.5, "equalities": 0.6,
+                "tendons": 0.5, "contacts": 1.0, "mocap": 0.05, "static_body": 0.05}
+
+
+def option_plan(rng, n):
+    """option vectors for n models: the constraint-stage factors solver x warm start x islands x noslip (24 cells) are
+    COVERED, not sampled — every aligned block of 12 models contains each (solver, warm start, islands) cell once and
+    every aligned block of 24 each cell of the full product; cone / Jacobian / integrator are balanced shuffles.  Half of
+    the models are constraint-rich scenes.  (Independent sampling left rare cells such as PGS without warm start at 1/30.)"""
+    cells = [(so, ws, isl) for so in SOLVERS for ws in (True, False) for isl in (True, False)]
+    plan = []
+    while len(plan) < n:
+        first = list(cells)
+        rng.shuffle(first)
+        slip = [i % 2 == 0 for i in range(len(cells))]
+        rng.shuffle(slip)
+        ns = dict(zip(first, slip))
+        second = list(cells)
+        rng.shuffle(second)
+        # aligned blocks of 12 contain every (solver, warm start, islands) cell once; the second block of a pair flips the
+        # noslip assignment of each cell, so aligned blocks of 24 contain every cell of the full product
+        plan += [{"solver": c[0], "warmstart": c[1], "islands": c[2], "noslip": ns[c]} for c in first]
+        plan += [{"solver": c[0], "warmstart": c[1], "islands": c[2], "noslip": not ns[c]} for c in second]
+    plan = plan[:n]
+
+    def balanced(values):
+        seq = []
+        while len(seq) < n:
+            v = list(values)
+            rng.shuffle(v)
+            seq += v
+        return seq[:n]
+    for p, cone, jac, integ, rich in zip(plan, balanced(("pyramidal", "elliptic")), balanced(("dense", "sparse", "auto")),
+                                         balanced(("Euler", "RK4", "implicit", "implicitfast")), balanced((True, False))):
+        p.update(cone=cone, jacobian=jac, integrator=integ, rich=rich)
+    return plan
+
+
+def plan_profile(opt):
+    prof = {"solvers": (opt["solver"],), "no_warmstart": 0.0 if opt["warmstart"] else 1.0, "islands": 1.0 if opt["islands"] else 0.0,
+            "cones": (opt["cone"],), "jacobians": (opt["jacobian"],), "integrators": (opt["integrator"],)}
+    if opt.get("rich"):
+        prof.update(RICH_PROFILE)
+    return prof
+
+
+def rich_state(mdl, st, rng):
+    """a state of a constraint-rich scene: free bodies close together just above / inside the floor, hinge / slide
+    joints often outside their limits"""
+    q = list(st["qpos"])
+    for j in mdl.joints:
+        a = j["qposadr"]
+        if j["type"] == "free":
+            q[a] = rng.uniform(-0.25, 0.25)
+            q[a + 1] = rng.uniform(-0.25, 0.25)
+            q[a + 2] = rng.uniform(0.0, 0.3)
+        elif j["type"] != "ball" and j["limited"] and rng.random() < 0.5:
+            lo, hi = j["range"]
+            q[a] = rng.choice((lo - rng.uniform(0.0, 0.1), hi + rng.uniform(0.0, 0.1)))
+    st["qpos"] = q
+    st["qvel"] = [0.3 * v for v in st["qvel"]]
+    return st
+
+
+def make_model(rng, sleep=0.0, integrator=None, extra_flags=True, history=0.3, profile=None, opt=None):
     """a generated model + post-processing of the description lines (allowed by the guide): more option flags,
-    history buffers (delayed actuators / sensors), userdata, noslip iterations"""
+    history buffers (delayed actuators / sensors), userdata, noslip iterations.  `opt` (an entry of option_plan) fixes
+    the constraint-stage options instead of sampling them."""
     prof = {"sleep": sleep, "energy": 0.5, "sensors": (1, 6), "actuators": (0, 3), "nbody": (1, 5),
             "equalities": 0.35, "tendons": 0.4}
     if integrator:
         prof["integrators"] = (integrator,)
+    if opt:
+        prof.update(plan_profile(opt))
+        prof["gravcomp"] = 0.15
     prof.update(profile or {})
     mdl = models.ModelGen(rng, prof).make()
+    mdl.rich = bool(opt and opt.get("rich"))
     lines = list(mdl.lines)
     opts = {"disable": 0, "enable": 0}
     for i, l in enumerate(lines):
@@ -239,8 +352,16 @@ def make_model(rng, sleep=0.0, integrator=None, extra_flags=True, history=0.3, p
                         v |= bit
             lines[i] = "option enableflags %d" % v
             opts["enable"] = v
-    if extra_flags and rng.random() < 0.15:
+    if (opt["noslip"] if opt else (extra_flags and rng.random() < 0.15)):
         lines.insert(0, "option noslip_iterations %d" % rng.choice((1, 3)))
+        opts["noslip"] = True
+    if opt and rng.random() < 0.35:
+        # few solver iterations: the result depends strongly on the initial iterate (warm start, stale arrays)
+        opts["iterations"] = rng.choice((1, 2, 3, 5))
+        lines.insert(0, "option iterations %d" % opts["iterations"])
+    if opt and rng.random() < 0.2:
+        opts["tolerance"] = 0
+        lines.insert(0, "option tolerance 0")
     if rng.random() < 0.3:
         lines.insert(0, "spec nuserdata %d" % rng.randint(1, 4))
     # history buffers: delayed controls / sensors
@@ -313,6 +434,8 @@ class Scene:
 
     def random_state(self, rng, k, extra=True):
         st = self.mdl.random_state(rng)
+        if getattr(self.mdl, "rich", False) and rng.random() < 0.8:
+            st = rich_state(self.mdl, st, rng)
         # a fresh mjData: an engine error (longjmp out of a call) may have left the previous one with a live stack frame
         cmds = ["data %d" % k] + state_cmds(k, st)
         if extra:
@@ -369,18 +492,20 @@ def witness_reads(sc, rng, key, witness, src=0, a=1, b=2):
         witness[k] = witness.get(k, 0) + (1 if d != "=" else 0)
 
 
-def validate_stage(sc, rng, key, src=0, a=1, b=2):
+def validate_stage(sc, rng, key, src=0, a=1, b=2, fp=None, call=None):
     """V1 + V2 for stage `key` from the data in slot `src`; leaves the advanced data in slot `a`.
-    Returns (list of problems, stats)."""
+    Returns (list of problems, stats).  `fp` / `call`: footprint and harness call of a second-layer leaf."""
     h, info = sc.h, sc.info
-    fp = sc.stages.get(key)
+    fp = fp if fp is not None else sc.stages.get(key)
     problems = []
-    call = STAGE_CALL[key]
+    call = call or STAGE_CALL[key]
     if fp is None:
         return [{"kind": "no-footprint", "stage": key}], {}
     R, W, K = set(fp["R"]), set(fp["W"]), set(fp["K"])
     h.ok("copydata %d %d" % (a, src))
     r = h.cmd("call %d %s" % (a, call))
+    if r == "na":
+        return [], {"na": True}       # a leaf that does not apply to this model (e.g. a dual solver without efc_AR)
     if r != "ok":
         return [{"kind": "stage-error", "stage": key, "msg": r}], {}
     # V1: changed fields belong to may-write groups
@@ -415,6 +540,67 @@ def validate_stage(sc, rng, key, src=0, a=1, b=2):
         problems.append({"kind": "V2-read-outside-footprint", "stage": key, "differing": diff.split()[:12], "seed": seed,
                          "poisoned_groups": pois_groups})
     return problems, {"poisoned": len(pf), "compared": len(cf)}
+
+
+# second layer: leaf call of mj_fwdConstraint / warmstart / mj_invConstraint (key in Gen.Pipeline.subStageKeys) -> harness call.
+# Locals of the caller that a leaf receives (jar, Ma, island) are harness-owned: equal in both runs by construction.
+LEAF_CALL = {
+    "mj_mulJacVec(m, d, d->efc_b, d->qacc_smooth)": "mulJacVec_efcb",
+    "mj_mulJacVec(m, d, jar, d->qacc_warmstart)": "mulJacVec_jar_warmstart",
+    "mj_mulJacVec(m, d, jar, d->qacc)": "mulJacVec_jar_qacc",
+    "mj_mulM(m, d, Ma, d->qacc_warmstart)": "mulM_Ma_warmstart",
+    "mj_constraintUpdate(m, d, jar, &cost_warmstart, 0)": "constraintUpdate_jar 7",
+    "mj_constraintUpdate(m, d, d->efc_b, &cost_smooth, 0)": "constraintUpdate_efcb",
+    "mj_constraintUpdate(m, d, jar, NULL, 0)": "constraintUpdate_null 11",
+    "mj_solPGS(m, d, m->opt.iterations)": "solPGS",
+    "mj_solCG(m, d, m->opt.iterations)": "solCG",
+    "mj_solNewton(m, d, m->opt.iterations)": "solNewton",
+    "mj_solNoSlip(m, d, m->opt.noslip_iterations)": "solNoSlip",
+    "mju_dispatch(m, d, solveIslandTask, NULL, nisland)": "dispatch",
+    "mj_solNoSlip_island(m, d, island, m->opt.noslip_iterations)": "solNoSlip_island 0",
+    "mj_dualFinish": "dualFinish",
+}
+LEAF_SKIP = {"mj_markStack", "mj_freeStack"}          # validated through the pipeline-level table / whole-function runs
+SOLVER_ENUM = {"PGS": "mjSOL_PGS", "CG": "mjSOL_CG", "Newton": "mjSOL_NEWTON"}
+
+
+def validate_leaves(sc, rng, stats):
+    """V1 + V2 of the leaf footprints of the second layer, from the state the pipeline leaves in slot 0 after mj_forward
+    (constraint rows present); for the dual solvers additionally from the cold-start point efc_force = 0.  The island
+    dispatch runs the solver of the model, so its footprint is the one of that solver."""
+    h = sc.h
+    problems, n = [], 0
+    if h.cmd("call 0 forward") != "ok":
+        return problems, n
+    nefc = int(h.cmd("scalar 0 nefc"))
+    nisland = int(h.cmd("scalar 0 nisland"))
+    stats["leaf_states"] = stats.get("leaf_states", 0) + 1
+    if nefc == 0:
+        return problems, n
+    stats["leaf_states_nefc"] = stats.get("leaf_states_nefc", 0) + 1
+    solver = SOLVER_ENUM[sc.mdl.options["solver"]]
+    leaves = sc.info.leaves(solver)
+    for key, fp in leaves.items():
+        if key in LEAF_SKIP or key.startswith("mjSTACKALLOC"):
+            continue
+        call = LEAF_CALL.get(key)
+        if fp is None or call is None:
+            problems.append({"kind": "leaf-without-footprint-or-call", "stage": key})
+            continue
+        if call in ("dispatch", "solNoSlip_island 0") and nisland == 0:
+            continue
+        if "efc_force" in fp["R"] and rng.random() < 0.5:
+            h.ok("set 0 efc_force " + " ".join(["0"] * nefc))      # the cold-start point of the dual solvers
+        pr, vst = validate_stage(sc, rng, key, fp=fp, call=call)
+        if vst.get("na"):
+            continue
+        n += 1
+        k = "leaf:" + call.split()[0]
+        stats["leaves"][k] = stats["leaves"].get(k, 0) + 1
+        for p in pr:
+            p["replay"] = {"model": sc.mdl.text(), "commands": h.log[1:][-60:]}
+        problems += pr
+    return problems, n
 
 
 def validate_model(sc, rng, nstates=1, witness=None):
@@ -452,7 +638,7 @@ def validate_model(sc, rng, nstates=1, witness=None):
 
 
 # ------------------------------------------------------------------------------------------ poison differentials (oracle)
-def make_receiver(sc, rng, kind, src, dst, I_groups, sig):
+def make_receiver(sc, rng, kind, src, dst, I_groups, sig, history=None):
     """build in slot dst an mjData that holds the integration state of slot src; returns a description"""
     h = sc.h
     keep = set(I_groups) | NEVER_POISON
@@ -465,6 +651,16 @@ def make_receiver(sc, rng, kind, src, dst, I_groups, sig):
         return {"kind": kind, "seed": seed}
     h.ok("data %d" % dst)
     desc = {"kind": kind}
+    if kind == "replay":
+        # the same call sequence on a new mjData (no state transfer at all)
+        for c in history or []:
+            w = c.split()
+            w[1] = str(dst)
+            r = h.cmd(" ".join(w))
+            if r != "ok":
+                desc["replay_error"] = r
+        desc["replayed_commands"] = len(history or [])
+        return desc
     if kind.startswith("used"):
         # leftovers of an unrelated history
         sc.random_state(rng, dst)
@@ -476,7 +672,11 @@ def make_receiver(sc, rng, kind, src, dst, I_groups, sig):
     elif kind.startswith("reset"):
         sc.random_state(rng, dst)
         h.cmd("call %d step" % dst)
-        h.ok("call %d resetData" % dst)
+        if sc.sizes.get("nkey") and rng.random() < 0.5:
+            h.ok("call %d resetKey 0" % dst)
+            desc["keyframe"] = 0
+        else:
+            h.ok("call %d resetData" % dst)
     elif kind.startswith("junk"):
         pg = [g for g in sc.info.groups if g not in keep]
         seed = rng.randrange(1 << 30)
@@ -490,11 +690,11 @@ def make_receiver(sc, rng, kind, src, dst, I_groups, sig):
 
 
 RECEIVERS = ("copydata+poison", "fresh+copystate", "fresh+setstate", "reset+copystate", "used+copystate", "used+setstate",
-             "junk+copystate")
+             "junk+copystate", "replay")
 ENTRY_PROG = {"forward": "mj_forward", "step": "mj_step", "inverse": "mj_inverse"}
 
 
-def differential(sc, rng, entry, receiver, sig, nsteps=1, src=0, dst=3):
+def differential(sc, rng, entry, receiver, sig, nsteps=1, src=0, dst=3, history=None):
     """run `entry` on slot src and on a receiver holding the same inputs; compare the groups the Lean analysis claims.
     The inputs are exactly the analysed read-before-write set (proved ⊆ state ∪ rest [∪ qacc, actuation for inverse]):
     groups of that set that the state API does not transfer are copied field by field.  Returns None or a failure."""
@@ -510,9 +710,9 @@ def differential(sc, rng, entry, receiver, sig, nsteps=1, src=0, dst=3):
         I = state_groups | {"memc", "stack", "sleep", "locals"}
         if entry == "inverse":
             I |= {"qacc", "actuation"}
-    desc = make_receiver(sc, rng, receiver, src, dst, I, sig)
+    desc = make_receiver(sc, rng, receiver, src, dst, I, sig, history=history)
     extra_in = [g for g in I if g not in state_groups and g not in NEVER_POISON and g != "sleep"]
-    if receiver != "copydata+poison":
+    if receiver not in ("copydata+poison", "replay"):
         for f in sc.fields(extra_in):
             v = h.cmd("get %d %s" % (src, f)).split(":", 1)[1].split()
             if v:
@@ -695,8 +895,14 @@ def run_models(ctx, info, exe, sf, sig, nmodels, sleep, thorough, stats):
     rng = ctx.rng
     h = Harness(exe)
     vprob, fails = [], []
+    plan = option_plan(rng, nmodels)
+    stats.setdefault("leaves", {})
     for mi in range(nmodels):
-        mdl = make_model(rng, sleep=sleep)
+        mdl = make_model(rng, sleep=sleep, opt=plan[mi])
+        cell = "%s/%s/%s/%s" % (plan[mi]["solver"], "warm" if plan[mi]["warmstart"] else "cold",
+                                "islands" if plan[mi]["islands"] else "monolithic", "noslip" if plan[mi]["noslip"] else "-")
+        stats.setdefault("option_cells", {})
+        stats["option_cells"][cell] = stats["option_cells"].get(cell, 0) + 1
         sleeping = bool(mdl.optflags["enable"] & E("mjENBL_SLEEP"))
         try:
             sc = Scene(h, info, mdl, sleeping)
@@ -712,19 +918,27 @@ def run_models(ctx, info, exe, sf, sig, nmodels, sleep, thorough, stats):
             pr, n = validate_model(sc, rng, witness=stats.get("witness"))
             stats["stage_validations"] = stats.get("stage_validations", 0) + n
             vprob += pr
-            receivers = ("copydata+poison",) if sleeping else RECEIVERS
+            if not sleeping:
+                for _ in range(2):
+                    sc.random_state(rng, 0)
+                    pr, n = validate_leaves(sc, rng, stats)
+                    stats["leaf_validations"] = stats.get("leaf_validations", 0) + n
+                    vprob += pr
+            receivers = ("copydata+poison", "replay") if sleeping else RECEIVERS
             for entry in ("forward", "step", "inverse"):
                 for rec in receivers:
                     if not thorough and rng.random() < 0.45:
                         continue
-                    sc.random_state(rng, 0)
+                    hist = list(sc.random_state(rng, 0))
                     pre = [h.cmd("call 0 step") for _ in range(rng.randint(0, 3))]
+                    hist += ["call 0 step"] * len(pre)
                     if entry == "inverse":
                         pre.append(h.cmd("call 0 forward"))
+                        hist.append("call 0 forward")
                     if any(r != "ok" for r in pre):
                         stats["engine_errors_in_setup"] = stats.get("engine_errors_in_setup", 0) + 1
                         continue      # e.g. RK4 + discrete inverse: mj_step itself raises an error for this model
-                    f = differential(sc, rng, entry, rec, sig, nsteps=(3 if entry == "step" else 1))
+                    f = differential(sc, rng, entry, rec, sig, nsteps=(3 if entry == "step" else 1), history=hist)
                     k = "%s:%s:%s" % ("sleep" if sleeping else "nosleep", entry, rec)
                     stats["diff"][k] = stats["diff"].get(k, 0) + 1
                     ctx.count((ctx.seed, sleep, mi, entry, rec), nontrivial=sc.sizes.get("nv", 0) > 0)
@@ -753,9 +967,10 @@ def run_models(ctx, info, exe, sf, sig, nmodels, sleep, thorough, stats):
 
 def run(ctx):
     thorough = ctx.tier == "thorough"
-    ctx.rule = ("generated models (gen/models.py + extra flags / history buffers / userdata) x random states; a case = (model, state, "
-                "entry point, receiver kind) for the differentials and (model, state, stage) for the footprint validation; "
-                "non-trivial = nv > 0")
+    ctx.rule = ("generated models (gen/models.py + extra flags / history buffers / userdata; options from a plan that covers every cell of "
+                "solver x warm start x islands [x noslip] per 12 [24] models, cone / Jacobian / integrator balanced, every second model a "
+                "constraint-rich scene) x random states; a case = (model, state, entry point, receiver kind) for the differentials and "
+                "(model, state, stage or leaf) for the footprint validation; non-trivial = nv > 0")
     man, sf, dj = build_all(ctx)
     ctx.lean_props(THEOREMS)
     drv = ctx.driver("drv_c01")
@@ -772,6 +987,12 @@ def run(ctx):
     vprob += v2
     fails += f2
     ctx.extra["stage_validations"] = stats.get("stage_validations", 0)
+    ctx.extra["leaf_validations"] = {"runs": stats.get("leaf_validations", 0), "by_leaf": stats.get("leaves", {}),
+                                     "states": stats.get("leaf_states", 0), "states_with_constraints": stats.get("leaf_states_nefc", 0)}
+    ctx.extra["option_cells"] = stats.get("option_cells", {})
+    ctx.extra["second_layer_analysis"] = {
+        "%s nefc%s0" % (sv, "!=" if ne else "=="): {k: info.subanalyze("mj_fwdConstraint", sv, ne)[k] for k in ("rbw", "killN")}
+        for sv in SOLVER_ENUM.values() for ne in (True, False)}
     ctx.extra["differentials"] = stats["diff"]
     ctx.extra["models_not_compiled"] = stats.get("not_compiled", 0)
     ctx.extra["scenario_errors"] = stats.get("scenario_errors", [])[:5]
@@ -780,7 +1001,8 @@ def run(ctx):
                len(stats.get("scenario_errors", [])) <= 2 + (stats.get("stage_validations", 0) // 200), str(stats.get("scenario_errors", [])[:3]))
     ctx.extra["conditional_fields"] = info.cond
     ctx.extra["analysis"] = {e: {k: info.analyze(p, False, "-")[k] for k in ("rbw", "killN")} for e, p in ENTRY_PROG.items()}
-    ctx.oblige("footprint table validated on the real engine (V1/V2, %d stage runs)" % stats.get("stage_validations", 0),
+    ctx.oblige("footprint table validated on the real engine (V1/V2, %d stage runs + %d leaf runs of the constraint stage)"
+               % (stats.get("stage_validations", 0), stats.get("leaf_validations", 0)),
                "correspondence", not vprob, json.dumps([{k: v for k, v in p.items() if k != "replay"} for p in vprob[:4]])[:1800])
     if vprob:
         ctx.disagreements += [dict(p, stream="footprint") for p in vprob[:10]]
